@@ -16,7 +16,7 @@ from gbasis.parsers import make_contractions, parse_gbs, parse_nwchem
 from gbasis.wrappers import from_pyscf
 
 RULE = ("Hypothesis draws a model basis set (1-4 elements with one- and two-letter symbols, 1-6 shells each, l from s to k, "
-        "1-8 primitives, 1-6 coefficient columns in NWChem / one in Gaussian94, combined SP shells, repeated exponents that "
+        "1-14 primitives, 1-6 coefficient columns in NWChem / one in Gaussian94, combined SP shells, repeated exponents that "
         "Gaussian94 must merge into a generalized shell) and a layout (number style E / D / 0.xD+yy / plain / no leading zero, "
         "signs, column widths, comment and blank lines, 0 / 1 / 2+ lines before the first element incl. the single line "
         "BASIS \"ao basis\" PRINT, with or without trailing END / ****); the file is written and parsed.  Oracle: the model, "
@@ -57,7 +57,7 @@ def token(draw, style, signed, lo=1e-3, hi=1e5):
 @st.composite
 def shell_st(draw, fmt, style, avoid):
     kind = draw(st.integers(0, 9))
-    k = draw(st.integers(1, 8))
+    k = draw(st.sampled_from([1, 2, 3, 4, 5, 6, 8, 9, 10, 11, 12, 14]))  # two-digit primitive counts included
     exps = []
     while len(exps) < k:
         t = draw(token(style, False, 0.01, 1e5))
